@@ -87,7 +87,9 @@ def instance_count(rrt):
 
 
 def needs_observed_items(prog):
-    return bool(prog.get("flush_faults"))
+    if prog.get("flush_faults"):
+        return True
+    return any(st[0] == "cancelbatch" for node in prog["nodes"] for st in lang.iter_stmts(node["body"]))
 
 
 def execute(prog, how, pol, seed, monitors, rrt_exp=None, fresh_scheduler=True):
